@@ -26,7 +26,8 @@ def estimate_sigma0(X: np.ndarray) -> float:
 
 
 def estimate_stds(X: np.ndarray) -> np.ndarray:
-    return np.sqrt(np.diag(estimate_covariance(X)))
+    # Avoid an AssertionError in cma.CMAEvolutionStrategy for a population that is degenerate in a coordinate.
+    return np.maximum(np.sqrt(np.diag(estimate_covariance(X))), _EPS)
 
 
 def get_population(
